@@ -290,7 +290,7 @@ def replay_array(model, dtype="f8", intparams=False):
                                     + ("; ".join(problems[:2]) or "orderings hold"), "inputs": m, "pressures": ps}
 
 
-def job_array(job):
+def job_array(job, variants=(("f8", False), ("i8", False), ("i8", True), ("f8", True))):
     """The same orderings through the array entry points (every pressure array is an oil input too): one call with
     both pressures, float64 and int64 arrays, float and Python-int scalar parameters."""
     from ..shims.np_shim import SymArray, Uninit
@@ -300,7 +300,7 @@ def job_array(job):
     job.encoded(oil, "solution_gor_Standing", "b_o_Standing", "pressure_bubblepoint_Standing")
     job.stub("oil_compressibility_undersat_Spivey: positive uninterpreted function")
     job.bound(array_form="length 2, dtypes float64 / int64, scalar parameters float or Python int (whole numbers)")
-    for dt, intp in (("f8", False), ("i8", False), ("i8", True), ("f8", True)):
+    for dt, intp in variants:
         ranges = dict(OIL_BOX)
         ranges.update(p1=(15, 50000), p2=(15, 50000))
         vs, dom = box(job, _integer=("T", "api", "rsi") if intp else (), **ranges)
@@ -346,4 +346,5 @@ def job_array(job):
 
 
 def jobs(tier):
-    return [("continuity", job_continuity), ("Rs", job_rs), ("Bo", job_bo), ("viscosity", job_visc), ("array", job_array)]
+    return [("continuity", job_continuity), ("Rs", job_rs), ("Bo", job_bo), ("viscosity", job_visc)] + \
+        [(f"array-{dt}{'-int' if intp else ''}", (lambda j, v=(dt, intp): job_array(j, (v,)))) for dt, intp in (("f8", False), ("i8", False), ("i8", True), ("f8", True))]
